@@ -222,7 +222,9 @@ func (r *Reporter) Finish(cov Coverage) int {
 	}
 	b, _ := json.MarshalIndent(ev, "", " ")
 	_ = os.MkdirAll(filepath.Join(Root, "evidence"), 0o755)
-	if err := os.WriteFile(filepath.Join(Root, "evidence", r.Prop+".json"), append(b, '\n'), 0o644); err != nil {
+	if os.Getenv("VERIF_REPLAY") != "" {
+		// a replay run (./check replay <file>) re-finds one recorded case: it never rewrites evidence
+	} else if err := os.WriteFile(filepath.Join(Root, "evidence", r.Prop+".json"), append(b, '\n'), 0o644); err != nil {
 		fmt.Fprintln(os.Stderr, "cannot write evidence:", err)
 		return 3
 	}
@@ -260,7 +262,9 @@ func (r *Reporter) writeReplay(v *Violation) string {
 		"cases":       v.Count,
 		"replay":      v.Replay,
 	}, "", " ")
-	_ = os.WriteFile(path, append(b, '\n'), 0o644)
+	if os.Getenv("VERIF_REPLAY") == "" {
+		_ = os.WriteFile(path, append(b, '\n'), 0o644)
+	}
 	return path
 }
 
